@@ -143,7 +143,11 @@ func loadEngine(repo, verif string) (*Engine, error) {
 			e.binds[k] = v
 		}
 		for _, g := range ps.Ghosts {
-			e.ghosts[p.PkgPath+"."+g.Type+"."+g.Field] = g
+			if strings.Contains(g.Type, ".") || strings.Contains(g.Type, "/") {
+				e.ghosts[g.Type+"."+g.Field] = g
+			} else {
+				e.ghosts[p.PkgPath+"."+g.Type+"."+g.Field] = g
+			}
 		}
 	}
 	e.registerMapTables()
@@ -153,6 +157,9 @@ func loadEngine(repo, verif string) (*Engine, error) {
 	}
 	for k, v := range e.trusted.Binds {
 		e.binds[k] = v
+	}
+	for _, g := range e.trusted.Ghosts {
+		e.ghosts[g.Type+"."+g.Field] = g
 	}
 	if err := e.loadSpecFiles(filepath.Join(verif, "spec", "smt")); err != nil {
 		return nil, err
